@@ -54,7 +54,22 @@ func slotOf(kind string, seq uint64) common.Hash {
 	return crypto.Keccak256Hash(path, common.LeftPadBytes(big.NewInt(208).Bytes(), 32))
 }
 
-var slotNames = []string{"commit#1", "ack#1", "commit#2", "unrelated"}
+// zSeq: per kind the first sequence (> 1) whose slot hash starts with a zero byte — the "second" sequence of every
+// query, so that slots with a leading zero are derived, proven and compared too.
+var zSeq = func() map[string]uint64 {
+	out := map[string]uint64{}
+	for _, kind := range []string{"commit", "ack"} {
+		for q := uint64(2); ; q++ {
+			if slotOf(kind, q)[0] == 0 {
+				out[kind] = q
+				break
+			}
+		}
+	}
+	return out
+}()
+
+var slotNames = []string{"commit#1", "ack#1", "commit#2", "ack#2", "unrelated"}
 
 func slotByName(n string) common.Hash {
 	if strings.HasPrefix(n, "filler/") {
@@ -66,7 +81,9 @@ func slotByName(n string) common.Hash {
 	case "ack#1":
 		return slotOf("ack", 1)
 	case "commit#2":
-		return slotOf("commit", 2)
+		return slotOf("commit", zSeq["commit"])
+	case "ack#2":
+		return slotOf("ack", zSeq["ack"])
 	}
 	return crypto.Keccak256Hash([]byte("unrelated slot"))
 }
@@ -415,7 +432,7 @@ func xStorages(tier string) []map[string]string {
 				for _, c2 := range []string{"", "h1", "h2"} {
 					for _, un := range []string{"", "h2"} {
 						m := map[string]string{}
-						for k, v := range map[string]string{"commit#1": c1, "ack#1": a1, "commit#2": c2, "unrelated": un} {
+						for k, v := range map[string]string{"commit#1": c1, "ack#1": a1, "commit#2": c2, "ack#2": a1, "unrelated": un} {
 							if v != "" {
 								m[k] = v
 							}
@@ -425,7 +442,7 @@ func xStorages(tier string) []map[string]string {
 				}
 			}
 		}
-		deep := map[string]string{"commit#1": "hz2", "ack#1": "h1", "commit#2": "h2"}
+		deep := map[string]string{"commit#1": "hz2", "ack#1": "h1", "commit#2": "h2", "ack#2": "h1"}
 		for i := 0; i < 300; i++ {
 			deep[fmt.Sprintf("filler/%d", i)] = valueNames[i%4]
 		}
@@ -439,9 +456,9 @@ func xStorages(tier string) []map[string]string {
 	return []map[string]string{
 		deep,
 		{"commit#1": "h1"},
-		{"commit#1": "hz1", "ack#1": "h2", "commit#2": "h1", "unrelated": "h2"},
+		{"commit#1": "hz1", "ack#1": "h2", "commit#2": "h1", "ack#2": "hz1", "unrelated": "h2"},
 		{"commit#1": "hz2", "unrelated": "h2"},
-		{"ack#1": "h1", "commit#2": "h1"},
+		{"ack#1": "h1", "commit#2": "h1", "ack#2": "h2"},
 		{"unrelated": "h2"},
 		{},
 		{"commit#1": "h1", "ack#1": "h1", "commit#2": "h2", "unrelated": "h2"},
@@ -501,7 +518,7 @@ func Run(r *ev.Run, tier string) (evals, nontrivial int64) {
 					cs := v.setup(ctx, h, set, roots)
 					store := h.C.App.XIBCKeeper.ClientKeeper.ClientStore(ctx, "evm-cp")
 					for _, kind := range []string{"commit", "ack"} {
-						for _, seq := range []uint64{1, 2} {
+						for _, seq := range []uint64{1, zSeq[kind]} {
 							for _, val := range valueNames {
 								for _, hgt := range heights {
 									q := query{kind, seq, val, hgt}
